@@ -1,7 +1,7 @@
 (** C18 — ed-style patch scripts are applied exactly.
     Only statements; every proof is [exact <lemma>]. *)
 From Verif Require Import Lib.Base Lib.Dec Lib.PySlice Gen.PyChars
-  Pdiff.Ed Pdiff.EdSpec Pdiff.EdProofs Pdiff.EdInst.
+  Pdiff.Ed Pdiff.EdSpec Pdiff.EdProofs Pdiff.EdInst Pdiff.EdGrammar.
 
 (** The model, for bytes ([true]) or str ([false]) scripts. *)
 Definition apply_script_of (bytes : bool) :=
@@ -76,6 +76,14 @@ Proof.
               |exact (unterminated_block_rejected _ _ digit_class_ok_str)].
 Qed.
 
+(** 4. The script grammar that the correspondence check uses to decide what
+       counts as "malformed" recognises exactly the rendered concrete syntax. *)
+Theorem C18_grammar_recognises_rendered :
+  forall wide cs,
+    forallb cmd_text_ok cs = true -> forallb cmd_addr_ordered cs = true ->
+    spec_parse (render wide cs) = Some cs.
+Proof. exact spec_parse_render. Qed.
+
 (** Non-vacuity: a concrete alignment with an insertion at the top, a change, a
     deletion of the last line and adjacent hunks meets the hypotheses. *)
 Example C18_nonvacuous :
@@ -95,3 +103,4 @@ Print Assumptions C18_bad_command_rejected_bytes.
 Print Assumptions C18_bad_command_rejected_str.
 Print Assumptions C18_append_with_range_rejected.
 Print Assumptions C18_unterminated_block_rejected.
+Print Assumptions C18_grammar_recognises_rendered.
